@@ -45,5 +45,13 @@ CHECKS = {
         "load_save copies the saved flags; main() loads the grammar with the saved flags on --load and refuses a uuid mismatch. Bounded: insertion loop vs declarative spec, "
         "skip_case on shipped rulesets, CLI resume.",
    note="file system and str.split/rstrip/float as uninterpreted functions; PcfgGrammar.__init__ trusted in main(); order clause up to ties"),
+ 'C16': dict(level='other', technique=TECH + "; RNG by contract (ghost draw streams); measure clause in real arithmetic",
+   text="random_walk returns exactly the node selected by cumulative sums against the successive draws and always a node; _honeyword_recursive_guess writes exactly one element of the expansion "
+        "(none for Markov); HoneywordSession.run writes exactly N lines and re-seeds with consecutive seeds from 1 in random-walk mode. Bounded: interval sweep with exact measures.",
+   note="RNG contract assumed (uniformity/independence are the RNG's); A-REAL for the measure; A-WFX"),
+ 'C17': dict(level='other', technique=TECH + "; CLI run as bounded stand-in",
+   text="create_prince_wordlist writes at most --size words, the first N of the unbounded stream (loop invariant over the log of popped pre-terminals); write_guess_to_file appends guess+LF; "
+        "save_to_file redirects the single output point only with a filename; prince_evaluation tallies every label once. Bounded: the real CLI around a group boundary, file vs stdout.",
+   note="order/exactly-once are C01/C02 via next()'s contract; A-WFX; prince_ling.main not under contract"),
 }
 NOT_APPLICABLE = {}
